@@ -40,8 +40,9 @@ STREAMS = {
 TRUSTED = [
     "tools/harness/c18.py (struct.pack image builder = ground truth, generators, adapters); line protocol parsing in lean/CsVerif/Driver/C18.lean",
     "tools/gen/version.py, tools/gen/pestruct.py (tables, struct layouts measured on the loaded cstruct classes)",
-    "dissect.cstruct structure reads are modelled as read(size)+EOFError-when-short; CPython re / _strptime / datetime.date "
-    "are modelled (Model/C18.lean: matchVersion, strptimeDate, validDate), not verified; io.BytesIO / file objects by Model/PyFile.lean",
+    "dissect.cstruct structure reads are modelled as read(size)+EOFError-when-short; CPython re / _strptime / datetime.date / int() "
+    "are modelled (Model/C18.lean: matchVersion, strptimeDate, validDate, digitValue?), not verified — exercised by the ver/fmt/cls streams; "
+    "io.BytesIO / file objects by Model/PyFile.lean",
 ]
 ASSUMPTIONS = [
     "version strings: any Python str (Unicode digits and white space are table-driven, measured on re/int at generation time); "
@@ -702,6 +703,8 @@ def nontrivial(stream, line, out):
         return out == "T"
     if stream == "cfg":
         return out != "ok " + txt("Unknown")
+    if stream == "cls":
+        return any(ch != "-" for ch in out)
     return True
 
 
